@@ -4,6 +4,7 @@ import (
 	"github.com/jsightapi/jsight-schema-core/bytes"
 	"github.com/jsightapi/jsight-schema-core/fs"
 	"github.com/jsightapi/jsight-schema-core/kit"
+	"github.com/jsightapi/jsight-schema-core/panics"
 	"github.com/jsightapi/jsight-schema-core/rules/enum"
 
 	"github.com/jsightapi/jsight-api-core/jerr"
@@ -105,10 +106,19 @@ func (s *Scanner) readEnumWithJsc() (uint, *jerr.JApiError) {
 	fc := s.file.Content()
 	file := fs.NewFile("", fc.Sub(s.curIndex, fc.LenIndex()))
 
-	l, err := enum.FromFile(file).Len()
+	l, err := enumLen(file)
 	if err != nil {
 		err := kit.ConvertError(file, err)
 		return 0, s.japiError(err.Message(), s.curIndex+bytes.Index(err.Index()))
 	}
 	return l, nil
+}
+
+// enumLen computes the length of the enum at the beginning of the file. The enum scanner of the schema library panics
+// on some unfinished enums (e. g. a comment cut off by the end of the file right after "*"): that panic is the error.
+func enumLen(file *fs.File) (l uint, err error) {
+	defer func() {
+		err = panics.Handle(recover(), err)
+	}()
+	return enum.FromFile(file).Len()
 }
